@@ -188,6 +188,35 @@ def handle (j : Json) : Except String Json := do
       ("any_raise", Json.bool (QState.anyRaise rd s0 ops)),
       ("last_write", match lastWrite ops with | none => Json.null | some v => ratToJson v),
       ("init_eff", ratToJson (s0.eff rd))]
+  | "outs" =>
+    -- the values returned by the calls of a history on ONE object (QState.outs), per probe element;
+    -- `factors` = the property's own reading (callFactors): float32 of the last value written before
+    -- each call; `snap0` / `snap1` = what an object caching "constant factor 0 / 1" at build time
+    -- would return (NOT the code; information only: at how many calls it would differ)
+    let form ← getStr j "form"
+    let fm : Form := match form with
+      | "linear" => .linear
+      | "ste" => .two true
+      | _ => .two false
+    let s0 ← qstateOfJson (← j.getObjVal? "init")
+    let opsJ ← (← j.getObjVal? "ops").getArr?
+    let ops ← opsJ.toList.mapM opOfJson
+    let ss ← getRatList j "s"
+    let qs ← getRatList j "q"
+    let pairs := ss.zip qs
+    let cols := pairs.map fun (s, q) => QState.outs rd fm s q s0 ops
+    let ncall := (ops.filter (· == Op.call)).length
+    let rows := (List.range ncall).map fun k =>
+      Json.arr (cols.map fun c => ratToJson (c.getD k 0)).toArray
+    let differs (test : Store → Bool) (pick : Rat × Rat → Rat) : Nat :=
+      (List.range ncall).filter (fun k =>
+        pairs.any fun (s, q) =>
+          (Snap.outs rd fm s q test (pick (s, q)) ⟨s0, false⟩ ops).getD k 0
+            != (QState.outs rd fm s q s0 ops).getD k 0) |>.length
+    pure <| Json.mkObj [("ys", Json.arr rows.toArray),
+      ("factors", Json.arr ((callFactors rd.r32 (s0.eff rd) ops).map ratToJson).toArray),
+      ("snap0_differs", Json.num ((differs Store.isConstZero (·.1) : Nat) : Int)),
+      ("snap1_differs", Json.num ((differs Store.isConstOne (·.2) : Nat) : Int))]
   | "compiled" =>
     -- one quantizer + one compiled function wrapping its call (CState.step): ops are the
     -- single-quantizer ops (eager) and {"op":"ccall"}; per step the quantizer state, what the
